@@ -253,6 +253,13 @@ theorem updateAll_hist (c : Cfg α) (t : α) : ∀ (xs : List (List α)) (s s' :
 
 /-! ### the whole step -/
 
+/-- what `postProcess` does after its evaluation, for every backend: one row appended on top of the rows of the
+evaluated state -/
+theorem finishStep_hist (c : Cfg α) (e : St α × Slice α) (t' : α) (xP : List (List α)) (upd : List (UpdAns α)) (sD : St α)
+    (h : finishStep c e t' xP upd = some sD) : sD.hist = e.2 :: e.1.hist := by
+  unfold finishStep at h
+  exact updateAll_hist _ _ _ _ _ _ _ h
+
 /-- **one accepted step, for every backend**: exactly one row is appended and the earlier rows are untouched
 (alignment of the 16 histories: they are the fields of one row); the new row is stamped with the old time plus the
 accepted step and with the schedule's temperature; its nucleation terms obey `NucOK`; the accepted step is the
@@ -270,12 +277,35 @@ theorem eulerStep_spec (c : Cfg α) (s : St α) (tf dtminS dtmaxS : α) (aPost :
   · next sD hD =>
     simp only [Option.some.injEq] at h
     subst h
-    have hh := updateAll_hist _ _ _ _ _ _ _ hD
+    have hh := finishStep_hist _ _ _ _ _ _ hD
     refine ⟨(evaluated c s tf dtminS dtmaxS aPost).2, ?_, ?_, ?_, ?_, rfl⟩
-    · rw [hh]; simp only [appended, evaluated]; rw [depEval_hist]; rfl
+    · rw [hh]; simp only [evaluated]; rw [depEval_hist]
     · exact (depEval_time _ _ _ _ _ _).1
     · exact (depEval_time _ _ _ _ _ _).2
     · exact depEval_nuc _ _ _ _ _ _
+
+/-- the same for the Runge-Kutta iterator: whatever the three intermediate evaluations did to tables, growth field and
+lookup, exactly one row is appended, stamped with old time + accepted step, and its nucleation terms obey `NucOK` -/
+theorem rk4Step_spec (c : Cfg α) (s : St α) (tf dtminS dtmaxS : α) (a2 a3 a4 aPost : EvalAns α) (upd : List (UpdAns α))
+    (o : StepOut α) (h : rk4Step c s tf dtminS dtmaxS a2 a3 a4 aPost upd = some o) :
+    ∃ y : Slice α, o.st.hist = y :: s.hist ∧ y.time = (s.cur c.nElem).time + o.dt ∧ y.temp = aPost.T ∧
+      (∀ yp ∈ y.ph, ∃ pc ∈ c.phases, NucOK pc.rmin yp) ∧
+      o.dt = Solver.clampDt dtminS
+              (if tf - (s.cur c.nElem).time < dtmaxS then tf - (s.cur c.nElem).time else dtmaxS) (.fin o.dtProposed) := by
+  unfold rk4Step at h
+  simp only at h
+  split at h
+  · simp at h
+  · next sD hD =>
+    simp only [Option.some.injEq] at h
+    subst h
+    have hh := finishStep_hist _ _ _ _ _ _ hD
+    refine ⟨(rk4Post c s tf dtminS dtmaxS a2 a3 a4 aPost).2, ?_, (depEval_time _ _ _ _ _ _).1, (depEval_time _ _ _ _ _ _).2,
+      depEval_nuc _ _ _ _ _ _, rfl⟩
+    rw [hh]
+    congr 1
+    simp only [rk4Post, rk4Evals]
+    rw [depEval_hist, depEval_hist, depEval_hist, depEval_hist]
 
 /-- **alignment**: the number of recorded rows grows by exactly one per accepted step -/
 theorem eulerStep_rows (c : Cfg α) (s : St α) (tf dtminS dtmaxS : α) (aPost : EvalAns α) (upd : List (UpdAns α))
@@ -284,13 +314,19 @@ theorem eulerStep_rows (c : Cfg α) (s : St α) (tf dtminS dtmaxS : α) (aPost :
   obtain ⟨y, hy, _⟩ := eulerStep_spec c s tf dtminS dtmaxS aPost upd o h
   rw [hy]; simp
 
-/-- **clock**: with a positive minimum step and time left, the new time stamp is strictly later than the old one,
-does not pass the end time and the step does not exceed the solver's current maximum — whatever `getDt` proposed -/
-theorem eulerStep_clock (c : Cfg α) (s : St α) (tf dtminS dtmaxS : α) (aPost : EvalAns α) (upd : List (UpdAns α))
-    (o : StepOut α) (h : eulerStep c s tf dtminS dtmaxS aPost upd = some o)
+theorem rk4Step_rows (c : Cfg α) (s : St α) (tf dtminS dtmaxS : α) (a2 a3 a4 aPost : EvalAns α) (upd : List (UpdAns α))
+    (o : StepOut α) (h : rk4Step c s tf dtminS dtmaxS a2 a3 a4 aPost upd = some o) :
+    o.st.hist.length = s.hist.length + 1 ∧ o.st.hist.tail = s.hist := by
+  obtain ⟨y, hy, _⟩ := rk4Step_spec c s tf dtminS dtmaxS a2 a3 a4 aPost upd o h
+  rw [hy]; simp
+
+/-- the clock facts follow from the step specification alone (either iterator) -/
+theorem clock_of_spec (c : Cfg α) (s : St α) (tf dtminS dtmaxS : α) (o : StepOut α) (y : Slice α)
+    (hy : o.st.hist = y :: s.hist) (ht : y.time = (s.cur c.nElem).time + o.dt)
+    (hdt : o.dt = Solver.clampDt dtminS
+      (if tf - (s.cur c.nElem).time < dtmaxS then tf - (s.cur c.nElem).time else dtmaxS) (.fin o.dtProposed))
     (hmin : 0 < dtminS) (hmax : 0 < dtmaxS) (hleft : (s.cur c.nElem).time < tf) :
     (s.cur c.nElem).time < (o.st.cur c.nElem).time ∧ (o.st.cur c.nElem).time ≤ tf ∧ o.dt ≤ dtmaxS := by
-  obtain ⟨y, hy, ht, _, _, hdt⟩ := eulerStep_spec c s tf dtminS dtmaxS aPost upd o h
   have hcur : o.st.cur c.nElem = y := by simp [St.cur, hy]
   rw [hcur, ht]
   set t := (s.cur c.nElem).time with htdef
@@ -301,6 +337,22 @@ theorem eulerStep_clock (c : Cfg α) (s : St α) (tf dtminS dtmaxS : α) (aPost 
   have hm1 : m ≤ tf - t := by rw [hm]; split <;> linarith
   have hm2 : m ≤ dtmaxS := by rw [hm]; split <;> linarith
   refine ⟨by linarith, by linarith, by linarith⟩
+
+/-- **clock**: with a positive minimum step and time left, the new time stamp is strictly later than the old one,
+does not pass the end time and the step does not exceed the solver's current maximum — whatever `getDt` proposed -/
+theorem eulerStep_clock (c : Cfg α) (s : St α) (tf dtminS dtmaxS : α) (aPost : EvalAns α) (upd : List (UpdAns α))
+    (o : StepOut α) (h : eulerStep c s tf dtminS dtmaxS aPost upd = some o)
+    (hmin : 0 < dtminS) (hmax : 0 < dtmaxS) (hleft : (s.cur c.nElem).time < tf) :
+    (s.cur c.nElem).time < (o.st.cur c.nElem).time ∧ (o.st.cur c.nElem).time ≤ tf ∧ o.dt ≤ dtmaxS := by
+  obtain ⟨y, hy, ht, _, _, hdt⟩ := eulerStep_spec c s tf dtminS dtmaxS aPost upd o h
+  exact clock_of_spec c s tf dtminS dtmaxS o y hy ht hdt hmin hmax hleft
+
+theorem rk4Step_clock (c : Cfg α) (s : St α) (tf dtminS dtmaxS : α) (a2 a3 a4 aPost : EvalAns α) (upd : List (UpdAns α))
+    (o : StepOut α) (h : rk4Step c s tf dtminS dtmaxS a2 a3 a4 aPost upd = some o)
+    (hmin : 0 < dtminS) (hmax : 0 < dtmaxS) (hleft : (s.cur c.nElem).time < tf) :
+    (s.cur c.nElem).time < (o.st.cur c.nElem).time ∧ (o.st.cur c.nElem).time ≤ tf ∧ o.dt ≤ dtmaxS := by
+  obtain ⟨y, hy, ht, _, _, hdt⟩ := rk4Step_spec c s tf dtminS dtmaxS a2 a3 a4 aPost upd o h
+  exact clock_of_spec c s tf dtminS dtmaxS o y hy ht hdt hmin hmax hleft
 
 /-! ### freshness of the lookup table through the whole step (C13's second sentence, on the composed model) -/
 
@@ -367,9 +419,13 @@ theorem depEval_fresh (c : Cfg α) (s : St α) (t : α) (x : List (List α)) (a 
   unfold depEval
   exact growthRate_fresh_binary c s a _ hb hmax
 
-theorem appended_cur (c : Cfg α) (s : St α) (tf dtminS dtmaxS : α) (aPost : EvalAns α) :
-    (appended c s tf dtminS dtmaxS aPost).cur c.nElem = (evaluated c s tf dtminS dtmaxS aPost).2 := by
-  simp [appended, St.cur]
+/-- freshness survives `_appendArrays` + `_updateParticleSizeDistribution` -/
+theorem finishStep_fresh (c : Cfg α) (e : St α × Slice α) (t' : α) (xP : List (List α)) (upd : List (UpdAns α)) (sD : St α)
+    (hmax : 0 ≤ c.maxTempChange) (hf : Fresh c e.1 e.2.temp) (h : finishStep c e t' xP upd = some sD) :
+    Fresh c sD (sD.cur c.nElem).temp := by
+  unfold finishStep at h
+  refine updateAll_fresh c _ hmax _ _ _ _ _ ?_ h
+  simpa [St.cur, Fresh] using hf
 
 /-- **lookup freshness after every accepted step, for every backend and schedule**: the interfacial-composition table
 in use was computed at a temperature within `maxTempChange` of the temperature of the newest recorded row — heating or
@@ -385,18 +441,28 @@ theorem eulerStep_fresh (c : Cfg α) (s : St α) (tf dtminS dtmaxS : α) (aPost 
   · next sD hD =>
     simp only [Option.some.injEq] at h
     subst h
-    refine updateAll_fresh c _ hmax _ _ _ _ _ ?_ hD
-    rw [appended_cur]
-    have := depEval_fresh c (aliasSt c s) ((s.cur c.nElem).time + acceptedDt c s tf dtminS dtmaxS)
-      (processAll c (aliasSt c s) (advanced c s (acceptedDt c s tf dtminS dtmaxS))) aPost (s.cur c.nElem) hb hmax
-    exact this
+    exact finishStep_fresh c _ _ _ _ _ hmax (depEval_fresh c _ _ _ _ _ hb hmax) hD
+
+/-- the same for the Runge-Kutta iterator (four growth-rate calls per step, each may rebuild the table) -/
+theorem rk4Step_fresh (c : Cfg α) (s : St α) (tf dtminS dtmaxS : α) (a2 a3 a4 aPost : EvalAns α) (upd : List (UpdAns α))
+    (o : StepOut α) (hb : c.binary = true) (hmax : 0 ≤ c.maxTempChange)
+    (h : rk4Step c s tf dtminS dtmaxS a2 a3 a4 aPost upd = some o) :
+    Fresh c o.st (o.st.cur c.nElem).temp := by
+  unfold rk4Step at h
+  simp only at h
+  split at h
+  · simp at h
+  · next sD hD =>
+    simp only [Option.some.injEq] at h
+    subst h
+    exact finishStep_fresh c _ _ _ _ _ hmax (depEval_fresh c _ _ _ _ _ hb hmax) hD
 
 /-! ### solute conservation of the row a step records (C01 on the composed model) -/
 
 /-- the inputs of the mass balance of the row recorded by a step: processed new distributions, the tables and grids of the
 entry state, previous volume fraction / content from the last recorded row -/
 def stepMassIns (c : Cfg α) (s : St α) (tf dtminS dtmaxS : α) : List (MB.PhaseIn α) :=
-  massIns c (aliasSt c s) (processAll c (aliasSt c s) (advanced c s (acceptedDt c s tf dtminS dtmaxS)))
+  massIns c s (processAll c s (advanced c s (acceptedDt c s tf dtminS dtmaxS)))
 
 /-- the matrix composition written into the row a step records IS the composition of `MB.massBalance` on those
 inputs, whatever the nucleation and growth stages and the backend did afterwards -/
@@ -427,8 +493,8 @@ theorem eulerStep_conserves (c : Cfg α) (s : St α) (tf dtminS dtmaxS : α) (aP
     · next sD hD =>
       simp only [Option.some.injEq] at h
       subst h
-      have hh := updateAll_hist _ _ _ _ _ _ _ hD
-      simp only [St.cur, hh, appended, List.headD_cons]
+      have hh := finishStep_hist _ _ _ _ _ _ hD
+      simp only [St.cur, hh, List.headD_cons]
   rw [hcur, evaluated_comp]
   exact C01.massBalance_conserves c.minDens c.minComp c.x0 _ _ e he hsat hpos
 
@@ -460,11 +526,32 @@ theorem dtmaxNow_pos (c : Cfg α) (s : St α) (tf dtmaxS : α) (h1 : 0 < dtmaxS)
     0 < dtmaxNow c s tf dtmaxS := by
   unfold dtmaxNow; split <;> linarith
 
-/-- **every run of the composed model, any number of accepted steps, any backend**: the recorded rows after the run
-are the rows before it plus rows appended one per step with strictly increasing time stamps that never pass the end
-time, each with nucleation terms obeying `NucOK`; and (binary models) the lookup table is fresh for the newest row. -/
+theorem anyStep_spec (c : Cfg α) (s : St α) (tf dtminS dtmaxS : α) (au : StepAns α) (o : StepOut α)
+    (h : anyStep c s tf dtminS dtmaxS au = some o) :
+    ∃ y : Slice α, o.st.hist = y :: s.hist ∧ y.time = (s.cur c.nElem).time + o.dt ∧
+      (∀ yp ∈ y.ph, ∃ pc ∈ c.phases, NucOK pc.rmin yp) ∧
+      o.dt = Solver.clampDt dtminS
+              (if tf - (s.cur c.nElem).time < dtmaxS then tf - (s.cur c.nElem).time else dtmaxS) (.fin o.dtProposed) := by
+  cases au with
+  | euler a u =>
+    obtain ⟨y, h1, h2, _, h4, h5⟩ := eulerStep_spec c s tf dtminS dtmaxS a u o h
+    exact ⟨y, h1, h2, h4, h5⟩
+  | rk4 a2 a3 a4 a u =>
+    obtain ⟨y, h1, h2, _, h4, h5⟩ := rk4Step_spec c s tf dtminS dtmaxS a2 a3 a4 a u o h
+    exact ⟨y, h1, h2, h4, h5⟩
+
+theorem anyStep_fresh (c : Cfg α) (s : St α) (tf dtminS dtmaxS : α) (au : StepAns α) (o : StepOut α)
+    (hb : c.binary = true) (hmax : 0 ≤ c.maxTempChange) (h : anyStep c s tf dtminS dtmaxS au = some o) :
+    Fresh c o.st (o.st.cur c.nElem).temp := by
+  cases au with
+  | euler a u => exact eulerStep_fresh c s tf dtminS dtmaxS a u o hb hmax h
+  | rk4 a2 a3 a4 a u => exact rk4Step_fresh c s tf dtminS dtmaxS a2 a3 a4 a u o hb hmax h
+
+/-- **every run of the composed model, any number of accepted steps, either iterator, any backend**: the recorded rows
+after the run are the rows before it plus rows appended one per step with strictly increasing time stamps that never
+pass the end time, each with nucleation terms obeying `NucOK`. -/
 theorem runSteps_reach (c : Cfg α) (tf dtminS : α) (hmin : 0 < dtminS) :
-    ∀ (steps : List (EvalAns α × List (UpdAns α))) (s s' : St α) (m m' : α), 0 < m →
+    ∀ (steps : List (StepAns α)) (s s' : St α) (m m' : α), 0 < m →
       runSteps c tf dtminS s m steps = some (s', m') → Reach c tf s.hist s'.hist
   | [], s, s', m, m', _, h => by simp [runSteps] at h; rw [h.1]; exact Reach.base
   | au :: rest, s, s', m, m', hm, h => by
@@ -474,8 +561,8 @@ theorem runSteps_reach (c : Cfg α) (tf dtminS : α) (hmin : 0 < dtminS) :
       split at h
       · simp at h
       · next o ho =>
-        obtain ⟨y, hy, _, _, hnuc, _⟩ := eulerStep_spec c s tf dtminS m au.1 au.2 o ho
-        have hclk := eulerStep_clock c s tf dtminS m au.1 au.2 o ho hmin hm hlt
+        obtain ⟨y, hy, ht, hnuc, hdt⟩ := anyStep_spec c s tf dtminS m au o ho
+        have hclk := clock_of_spec c s tf dtminS m o y hy ht hdt hmin hm hlt
         have hcur : o.st.cur c.nElem = y := by simp [St.cur, hy]
         have h1 : Reach c tf s.hist o.st.hist := by
           rw [hy]
@@ -486,8 +573,9 @@ theorem runSteps_reach (c : Cfg α) (tf dtminS : α) (hmin : 0 < dtminS) :
           (runSteps_reach c tf dtminS hmin rest o.st s' _ m' (dtmaxNow_pos c s tf m hm hlt) h)
     · simp only [Option.some.injEq, Prod.mk.injEq] at h; rw [h.1]; exact Reach.base
 
+/-- and (binary models) the lookup table is fresh for the newest row after any run -/
 theorem runSteps_fresh (c : Cfg α) (tf dtminS : α) (hb : c.binary = true) (hmax : 0 ≤ c.maxTempChange) :
-    ∀ (steps : List (EvalAns α × List (UpdAns α))) (s s' : St α) (m m' : α),
+    ∀ (steps : List (StepAns α)) (s s' : St α) (m m' : α),
       Fresh c s (s.cur c.nElem).temp → runSteps c tf dtminS s m steps = some (s', m') →
       Fresh c s' (s'.cur c.nElem).temp
   | [], s, s', m, m', hf, h => by simp [runSteps] at h; rw [← h.1]; exact hf
@@ -498,7 +586,7 @@ theorem runSteps_fresh (c : Cfg α) (tf dtminS : α) (hb : c.binary = true) (hma
       · simp at h
       · next o ho =>
         exact runSteps_fresh c tf dtminS hb hmax rest o.st s' _ m'
-          (eulerStep_fresh c s tf dtminS m au.1 au.2 o hb hmax ho) h
+          (anyStep_fresh c s tf dtminS m au o hb hmax ho) h
     · simp only [Option.some.injEq, Prod.mk.injEq] at h; rw [← h.1]; exact hf
 
 end KawinV.Props.KWNFull
